@@ -14,7 +14,8 @@ EXPLANATION = (
     "features or filters on membership in them, so summary(feature) holds rows of that feature only; "
     "the requested set is self.features or [feature], asserted to be a kept feature); "
     "R-single-table (summary takes labels from self.labels_per_values, the table transform uses, and "
-    "raw labels from _get_labels_per_values only); R-history-complete (in _test_viability the "
+    "raw labels from _get_labels_per_values only; missing values are listed according to "
+    "features_dropna[feature], the per-feature flag transform uses and update_discretizer edits); R-history-complete (in _test_viability the "
     "historization call is executed on every iteration before the loop can break or continue, the raw "
     "distribution is historized before the search, and the 'not checked' tail is exactly "
     "associations_xagg[n_combination + 1:] of the accepted combination; the order applied and stored in "
@@ -22,7 +23,7 @@ EXPLANATION = (
     "history record carries combination, the sort_by value, viability and message)."
 )
 NOT_DECIDED = "agreement of summary contents with transform outputs on data"
-FLOORS = {"R-summary-scope": 3, "R-single-table": 2, "R-history-complete": 6, "R-history-fields": 2}
+FLOORS = {"R-summary-scope": 3, "R-single-table": 4, "R-history-complete": 6, "R-history-fields": 2}
 
 
 def _emits(node, sink="summaries"):
@@ -82,6 +83,23 @@ def rule_single_table(ctx):
                 ok2 = ok2 and (t == "label" or t.startswith("self.labels_per_values[feature]"))
     ctx.ob(R, construct(fi, "every 'label' cell is read from self.labels_per_values"), ok2 and not other and bool(lab), loc(fi),
            "" if (ok2 and not other) else f"other label sources: {sorted(other)}")
+
+
+def rule_nan_flag_source(ctx):
+    """summary and transform decide whether missing values are shown / kept with the same
+    per-feature flag (features_dropna, which update_discretizer edits), not with the constructor's
+    global dropna."""
+    R = "R-single-table"
+    fi = ctx.repo.find_function(f"{F_BASE}::BaseDiscretizer.summary")
+    bad = [n for n in ast.walk(fi.node) if isinstance(n, ast.Attribute) and n.attr == "dropna" and isinstance(n.value, ast.Name) and n.value.id == "self"]
+    uses = [n for n in ast.walk(fi.node) if isinstance(n, ast.Subscript) and unparse(n.value) == "self.features_dropna"]
+    ok = not bad and bool(uses) and all(unparse(u.slice) == "feature" for u in uses)
+    ctx.ob(R, construct(fi, "missing values are listed according to self.features_dropna[feature], the flag transform uses"), ok, loc(fi, bad[0] if bad else None),
+           "" if ok else "summary reads the constructor's global dropna: after update_discretizer groups the missing values of a feature, summary hides them while transform labels them")
+    ft = ctx.repo.find_function(f"{F_BASE}::BaseDiscretizer.transform")
+    ok = any(isinstance(n, ast.For) and unparse(n.iter) == "self.features_dropna.items()" for n in walk_no_nested(ft.node)) and not any(
+        isinstance(n, ast.Attribute) and n.attr == "dropna" and isinstance(n.value, ast.Name) and n.value.id == "self" for n in ast.walk(ft.node))
+    ctx.ob(R, construct(ft, "transform restores missing values according to self.features_dropna"), ok, loc(ft))
 
 
 def rule_history_complete(ctx):
@@ -187,6 +205,7 @@ def check(ctx):
     rule_viable_is_fitted(ctx)
     rule_summary_scope(ctx)
     rule_single_table(ctx)
+    rule_nan_flag_source(ctx)
     rule_history_complete(ctx)
     rule_history_fields(ctx)
 
@@ -195,6 +214,7 @@ MUTANTS = [
     M("D5-reverted: NaN rows of other quantitative features leak", [(F_BASE, "            if feature in requested_features and self.str_nan in raw_labels_per_values[feature]:", "            if self.str_nan in raw_labels_per_values[feature]:")], "R-summary-scope", quick=True),
     M("summary loops over all features", [(F_BASE, "        for feature in requested_features:\n            # adding each value/label", "        for feature in self.features:\n            # adding each value/label")], "R-summary-scope"),
     M("summary accepts dropped features", [(F_BASE, "            assert feature in self.features, (\n                f\"Discretization of feature {feature} was not \" \"requested or it has been dropped.\"\n            )\n", "")], "R-summary-scope", "requested features ="),
+    M("D25-reverted: summary reads the global dropna", [(F_BASE, "                if not (not self.features_dropna[feature] and value == self.str_nan):", "                if not (not self.dropna and value == self.str_nan):")], "R-single-table", "features_dropna", quick=True),
     M("summary recomputes labels with the float dtype", [(F_BASE, "            for value, label in self.labels_per_values[feature].items():", "            for value, label in self._get_labels_per_values('float')[feature].items():")], "R-single-table"),
     M("break before historization", [(F_BC, "            # historizing combinations and tests\n            self._historize_viability_test(", "            if best_association is not None:\n                break\n            # historizing combinations and tests\n            self._historize_viability_test(")], "R-history-complete", "every tested", quick=True),
     M("only viable combinations historized", [(F_BC, "            # historizing combinations and tests\n            self._historize_viability_test(\n                feature=feature,\n                association=association,\n                order=order,\n                n_combination=n_combination,\n                associations_xagg=associations_xagg,\n                dropna=dropna,\n                verbose=self.verbose,\n                **test_results,\n            )\n",
